@@ -1598,6 +1598,8 @@ fn present(case: &Case) -> Present {
             _ => {}
         }
     }
+    // since fix 1172f09 `NotEquals` is checked at the leaves: the no-op quirk is gone
+    p.ne_noop = false;
     p
 }
 
